@@ -69,6 +69,12 @@ class Prop(PropBase):
             data = da.from_array(v, chunks=(-1, 1, 2) + (1,) * len(ext))
         z = sigs.make(pb, "DualPolarizationSignal", case["L"], 1 * u.MHz, sigs.T0S[0], nchan=case["n"], data=data,
                       pol_type=case["pol"], center_freq=400 * u.MHz, freq_align="top", meta={"a": 1})
+        if (case["L"] + case["n"]) % 3 == 0:
+            for bad_pol in ("Circular", "LIN", None):          # refused values: the object must stay what it was
+                try:
+                    z.pol_type = bad_pol
+                except ValueError:
+                    pass
         try:
             lin, circ, st, inten = z.to_linear(), z.to_circular(), z.to_stokes(), z.to_intensity()
             comps = [st[k] for k in "IQUV"] + [st.stokesI, st.stokesQ, st.stokesU, st.stokesV]
